@@ -41,7 +41,8 @@ cls(
         "send": "opaque", "server": "opaque", "ssl": "bool", "stream": "opt " + STREAM,
         "task_group": "obj hypercorn.typing:TaskGroup", "connection_state": "opaque",
     },
-    ghost={"g_requests": "nat"},
+    ghost={"g_requests": "nat",
+           "g_closed": "bool"},  # the server has told the protocol that the connection is gone (handle(Closed))
     callbacks={"send": Callback(name="send", effect="yields", record="sent")},
     inv=[
         # C06.serial: a new request can only be parsed (client IDLE) when no stream is attached
@@ -49,7 +50,8 @@ cls(
         ("C18.ka.count", "self.keep_alive_requests >= 0", "C18"),
         ("H11.inv.can_read-clearable", "not self.can_read.g_sticky", "C06"),
     ],
-    rely=[("H11.rely.requests-monotone", "self.keep_alive_requests >= old(self.keep_alive_requests)", "C06,C18")],
+    rely=[("H11.rely.closed-stays", "implies(old(self.g_closed), self.g_closed)", "C06"),
+          ("H11.rely.requests-monotone", "self.keep_alive_requests >= old(self.keep_alive_requests)", "C06,C18")],
     # only the reader counts requests and swaps the connection object (WebSocket upgrade)
     task_rely={"reader": [("H11.rely[reader].count", "self.keep_alive_requests == old(self.keep_alive_requests)", "C06,C18"),
                           # only the reader attaches a stream; others can only detach it
@@ -62,6 +64,7 @@ fn(H1 + "._close_stream", params={}, inline=True, props=("C03",))
 fn(H1 + "._send_error_response", params={"status_code": "int"}, inline=True, props=("C04",))
 
 fn(H1 + ".handle", params={"event": _ev.IO_EVENTS}, task="reader", model_opts={"h11_server_headers_ok": True},
+   ghost_pre=["self.g_closed = self.g_closed or isinstance(event, Closed)"],
    # the servers stop feeding data once they have seen EOF (both _read_data loops)
    requires=[("h11.handle.pre.no-data-after-eof", "implies(isinstance(event, RawData) and isinstance(self.connection, h11.Connection), not self.connection.recv_closed or len(event.data) == 0)")],
    raises={"H2CProtocolRequiredError": None, "H2ProtocolAssumedError": None},
@@ -175,6 +178,9 @@ fn(H1 + "._maybe_recycle", params={}, task="app",
    ensures=[
        # C06.recycle: the connection is reused only if request and response were both complete and
        # shutdown has not begun; otherwise it is closed
+       # C06 "otherwise ... closes after it without processing further requests": a connection the
+       # server has reported gone (EOF, reset, failed write) is not reused for the next pipelined request
+       ("C06.recycle.not-after-closed", "implies(old(self.g_closed), not trace_any('h11', 'x', x == 'start_next_cycle'))", "C06,C03"),
        ("C06.recycle.only-when-done", "implies(trace_any('h11', 'x', x == 'start_next_cycle'), not old(self.context.terminated.flag))", "C06,C15"),
        ("C06.recycle.or-close", "trace_any('h11', 'x', x == 'start_next_cycle') or trace_any('sent', 'x', isinstance(x, Closed))", "C06,C07,C05"),
        ("C07.h11.idle-after-recycle", "implies(trace_any('h11', 'x', x == 'start_next_cycle'), trace_any('sent', 'x', isinstance(x, Updated) and x.idle == True))", "C07"),
